@@ -256,5 +256,6 @@ pub fn run(thorough: bool) -> Vec<Part> {
     }
     part.set("rule", json!("payload: every (L, n) pair x schedules; lines: every (kind, length 1000..1100, offset 0..1023) x schedules; non-trivial = n within 1 of L / line length within 1024-1..1024+2"));
     parts.push(part);
+    parts.push(crate::props::srv::c04_server(thorough));
     parts
 }
